@@ -108,7 +108,11 @@ Aligned(addr, len) == addr[1] % len = 0          \* len in {1,2,4,8} divides 256
 RECURSIVE TabLookup(_, _, _)
 TabLookup(tab, f, k) == IF k > Len(tab) THEN -1
                         ELSE IF tab[k][1] = f THEN tab[k][2] ELSE TabLookup(tab, f, k+1)
-FrameSize(f) == LET v == TabLookup(env.fsz.tab, f, 1) IN IF v >= 0 THEN v ELSE env.fsz.dflt
+\* Named deviation (known finding "jit_r10"): the x86-64 JIT does not lower r10 on a local call -
+\* caller and callee share one frame - and knows nothing about frame-size calculators.
+Dev_JitSharedFrame == "jit_r10" \in env.dev
+FrameSize(f) == IF Dev_JitSharedFrame THEN 0
+                ELSE LET v == TabLookup(env.fsz.tab, f, 1) IN IF v >= 0 THEN v ELSE env.fsz.dflt
 
 (***************************************************************************)
 (* Terminal statuses.                                                      *)
